@@ -1,7 +1,7 @@
 """C16 - a failed flush is reported and loses nothing."""
 from .model import short, const_val
 from .roles import Roles, INNER, FILEDBINNER
-from .util import (io_result_sites, reachable_fns, where, line_of, enum_switches, region_dominated, origins, calls_to)
+from .util import (is_io_result, io_result_sites, reachable_fns, where, line_of, enum_switches, region_dominated, origins, calls_to)
 from . import flushpath as fp
 
 EXPLANATION = (
@@ -24,28 +24,16 @@ DROPPED_ALLOW = {
     ("abyssiniandb::filedb::inner::val::VarFileValueCache::write_piece", "set_file_length"):
         "best-effort truncation while already returning the original write error",
 }
-# unwrap()/expect() on an io::Result: places whose signature has no error channel (Iterator::next, iterator
-# constructors of the DbMap trait, the slot walkers).  Keyed by (function id, callee name).
-UNWRAP_ALLOW = {
-    ("<abyssiniandb::filedb::dbmap::FileDbMap<KT> as abyssiniandb::DbMap<KT>>::iter", "new"),
-    ("<abyssiniandb::filedb::dbmap::FileDbMap<KT> as abyssiniandb::DbMap<KT>>::iter_mut", "new"),
-    ("<abyssiniandb::filedb::dbmap::FileDbMap<KT> as abyssiniandb::DbMap<KT>>::keys", "new"),
-    ("<abyssiniandb::filedb::dbmap::FileDbMap<KT> as abyssiniandb::DbMap<KT>>::values", "new"),
-    ("<abyssiniandb::filedb::dbmap::FileDbMap<KT> as core::iter::traits::collect::IntoIterator>::into_iter", "new"),
-    ("<&abyssiniandb::filedb::dbmap::FileDbMap<KT> as core::iter::traits::collect::IntoIterator>::into_iter", "new"),
-    ("<&mut abyssiniandb::filedb::dbmap::FileDbMap<KT> as core::iter::traits::collect::IntoIterator>::into_iter", "new"),
-    ("abyssiniandb::filedb::inner::dbxxx::DbXxxKeyPieceOffsetIter::<'a, KT>::next_piece_offset", "read_piece_only_bucket_next_offset"),
-    ("abyssiniandb::filedb::inner::dbxxx::DbXxxKeyPieceOffsetIter::<'a, KT>::next_piece_offset", "next_key_piece_offset"),
-    ("abyssiniandb::filedb::inner::dbxxx::DbXxxIterMut::<KT>::next_piece_offset", "read_piece_only_bucket_next_offset"),
-    ("abyssiniandb::filedb::inner::dbxxx::DbXxxIterMut::<KT>::next_piece_offset", "next_key_piece_offset"),
-    ("<abyssiniandb::filedb::inner::dbxxx::DbXxxIterMut<KT> as core::iter::traits::iterator::Iterator>::next", "load_key_data"),
-    ("<abyssiniandb::filedb::inner::dbxxx::DbXxxIterMut<KT> as core::iter::traits::iterator::Iterator>::next", "load_value"),
-    ("<abyssiniandb::filedb::inner::piece::PieceOffsetIter<T> as core::iter::traits::iterator::Iterator>::next", "next_piece_offset"),
-    ("abyssiniandb::filedb::inner::key::KeyFile::<KT>::piece_offset_iter", "new"),
-    ("<abyssiniandb::filedb::inner::key::KeyPieceOffsetIter as core::iter::traits::iterator::Iterator>::next", "next_piece_offset"),
-    ("abyssiniandb::filedb::inner::val::ValueFile::piece_offset_iter", "new"),
-    ("<abyssiniandb::filedb::inner::val::ValuePieceOffsetIter as core::iter::traits::iterator::Iterator>::next", "next_piece_offset"),
-}
+# unwrap()/expect() on an io::Result is tolerated only where the enclosing function has no error channel at all: its
+# own return type is not io::Result (Iterator::next, the DbMap iterator constructors, the slot walkers).  A function
+# that *can* return an io::Error must propagate it.  (Structural, so that renaming such a function is not an alarm.)
+def no_error_channel(prog, fn):
+    f = fn
+    while f.kind == "Closure" and f.parent in prog.fns:
+        f = prog.fns[f.parent]
+    return not is_io_result(f.output)
+
+
 GOOD = {"try", "returned", "match-returned"}
 
 
@@ -77,8 +65,8 @@ def check(ctx):
             inst = "%s->%s" % (short(fn.id), cname(t))
             if fate <= GOOD:
                 ctx.ok("flush-no-dropped-result", inst, ",".join(sorted(fate)))
-            elif (fn.id, cname(t)) in UNWRAP_ALLOW and fate <= GOOD | {"unwrap"}:
-                ctx.ok("flush-no-dropped-result", inst, "unwrap (no error channel; allow-listed)")
+            elif no_error_channel(prog, fn) and fate <= GOOD | {"unwrap"}:
+                ctx.ok("flush-no-dropped-result", inst, "unwrap in a function without an error channel")
             else:
                 ctx.fail("flush-no-dropped-result", inst,
                          "on the flush/sync path the io::Result of %s is %s: an OS error there is not reported to the caller"
@@ -127,13 +115,19 @@ def check(ctx):
     ctx.floor("inventory", "io::Result call sites in the lib", total, 400)
     from . import poscontrol
     poscontrol.result_fate_control(ctx)
+    setlen = R.get("SET_LEN")
     for key, fn, b in dropped:
-        ctx.check(key in DROPPED_ALLOW, "no-dropped-result", "%s->%s" % (short(key[0]), key[1]),
-                  "the io::Result of %s is dropped in %s (not on the allow-list)" % (key[1], fn.id), where=where(fn, b))
+        # tolerated: best-effort truncation (SET_LEN) on a path that is already returning the original write error
+        t = fn.term(b)
+        is_setlen = setlen is not None and any(x.id == setlen.id for x in prog.targets(t, fn)[0])
+        on_err_path = not fn.success_reach_return(b, ())
+        ctx.check(is_setlen and on_err_path, "no-dropped-result", "%s->%s" % (short(key[0]), key[1]),
+                  "the io::Result of %s is dropped in %s (only a best-effort truncation on a path that already returns the original error is tolerated)" % (key[1], fn.id), where=where(fn, b))
     for key, fn, b in unwraps:
-        ctx.check(key in UNWRAP_ALLOW, "no-new-unwrap", "%s->%s" % (short(key[0]), key[1]),
-                  "io::Result of %s is unwrap()ed in %s: an OS error becomes a panic instead of an Err "
-                  "(only iterator plumbing without an error channel is allow-listed)" % (key[1], fn.id), where=where(fn, b))
+        ctx.check(no_error_channel(prog, fn), "no-new-unwrap", "%s->%s" % (short(key[0]), key[1]),
+                  "io::Result of %s is unwrap()ed in %s although that function returns io::Result itself: an OS error becomes "
+                  "a panic instead of an Err" % (key[1], fn.id), where=where(fn, b))
+    ctx.floor("no-new-unwrap", "unwrap sites on io::Result (all in functions without an error channel)", len(unwraps), 10)
     for key, fn, b, bad in other:
         ctx.fail("no-swallowed-result", "%s->%s" % (short(key[0]), key[1]),
                  "the io::Result of %s is %s in %s" % (key[1], sorted(bad), fn.id), where=where(fn, b))
